@@ -88,14 +88,14 @@ def inflate (K : V → Prop) (r : ℝ) : V → Prop := fun p => ∃ c, K c ∧ V
 
 theorem IsDist.nonneg {M : V → Prop} {δ : ℝ} (h : IsDist M δ) : 0 ≤ δ := by
   by_contra hn
-  push_neg at hn
+  rw [not_le] at hn
   obtain ⟨x, _, hx⟩ := h.2 (-δ) (by linarith)
   have := V3.norm_nonneg x
   linarith
 
 theorem LowerBound.le_dist {M : V → Prop} {c δ : ℝ} (hc : LowerBound M c) (h : IsDist M δ) : c ≤ δ := by
   by_contra hn
-  push_neg at hn
+  rw [not_le] at hn
   obtain ⟨x, hx, hlt⟩ := h.2 ((c - δ) / 2) (by linarith)
   have := hc x hx
   linarith
@@ -211,7 +211,7 @@ theorem inflate_attain {A B : V → Prop} {δ rA rB : ℝ} (hA : 0 ≤ rA) (hB :
       · rw [hpp, norm_zero']
         have := le_max_left 0 (δ - rA - rB)
         linarith
-  · push_neg at hcase
+  · rw [not_le] at hcase
     have hDpos : 0 < D := by linarith
     -- p = c - (rA / D) (c - c'),  q = c' + (rB / D) (c - c')
     let p : V := c - (rA / D) * (c - c')
